@@ -112,6 +112,11 @@ func HarnessC06Bind() {
 		cm.Object["spec"].(map[string]any)["resourceRef"] = map[string]any{"apiVersion": "example.org/v1", "kind": "XR", "name": "xr-pre"}
 	}
 	deleting := zz.Bool("claim.deleting")
+	// a claim that records an XR got its finalizer in the same or an earlier
+	// reconcile (the finalizer is added before the reference is recorded)
+	if hasRef {
+		cm.SetFinalizers([]string{finalizer})
+	}
 	if deleting {
 		cm.SetFinalizers([]string{finalizer})
 		now := metav1.Now()
